@@ -155,6 +155,10 @@ def run_case(args):
                 if dup_keys and len(keys) > 1:
                     res["feats"]["order-by-duplicate-key-then-column"] = res["feats"].get("order-by-duplicate-key-then-column", 0) + 1
             okeys = ", ".join(f"c{i}{' DESC' if d else ''}" for i, d in keys)
+            if rng.random() < 0.2:
+                # positions instead of names: ORDER BY 2 DESC, 1
+                okeys = ", ".join(f"{i + 1}{' DESC' if d else ''}" for i, d in keys)
+                res["feats"]["order-by-position"] = res["feats"].get("order-by-position", 0) + 1
             r0 = rl.sql(base)
             res["evals"] += 1
             if r0.get("dead"):
